@@ -328,6 +328,9 @@ fn corrupt_every_offset() -> SimResult {
         ensure!(plain.starts_with(&sb.read), "C17/corrupt-altered-plaintext", "flip at ciphertext offset {k} (frame {fi}): reader produced bytes that are not a prefix of the plaintext");
         ensure!(sb.read.len() <= max_ok, "C17/corrupt-frame-accepted", "flip at ciphertext offset {k} (frame {fi}, bit {bit:#x}): reader delivered {} bytes but only {max_ok} precede the corrupted frame", sb.read.len());
         ensure!(sb.read_err.is_some() || (sb.eof && sb.read.len() <= max_ok) || !sb.eof, "C17/corrupt-no-error", "flip at {k}: no error");
+        // a clean end-of-stream tells the application "that was all": it is only acceptable if
+        // everything was delivered, never after a corruption cut the stream short
+        ensure!(!(sb.eof && sb.read.len() < plain.len()), "C17/corrupt-clean-eof", "flip at ciphertext offset {k} (frame {fi}, byte {} of the frame, bit {bit:#x}): the reader reported a clean end-of-stream after {} of {} plaintext bytes instead of an error", k - bounds[fi].0, sb.read.len(), plain.len());
         if sb.read_err.is_some() {
             probe("corruption_detected_as_error");
         } else {
@@ -347,6 +350,12 @@ fn truncate_every_offset() -> SimResult {
     let (_, _, m0, _) = session_with_mitm(&wa, &mut |_, _, x| x)?;
     let (hs_a2b, _) = handshake_lens(&m0.seen);
     let total = m0.seen[0].len();
+    let mut frame_ends = vec![];
+    let mut at = hs_a2b;
+    while at + 2 <= total {
+        at += 2 + u16::from_be_bytes([m0.seen[0][at], m0.seen[0][at + 1]]) as usize;
+        frame_ends.push(at);
+    }
     for cut in hs_a2b..total {
         let (_, sb, _, _) = session_with_mitm(&wa, &mut |dir, off, mut x| {
             if dir == 0 && off + x.len() > cut {
@@ -357,6 +366,12 @@ fn truncate_every_offset() -> SimResult {
         let sb = sb.borrow();
         ensure!(plain.starts_with(&sb.read), "C17/truncate-altered", "cut at {cut}: non-prefix data");
         ensure!(sb.read.len() < plain.len(), "C17/truncate-complete", "cut at {cut} of {total}: reader still got all {} bytes", plain.len());
+        // a cut inside a frame must surface as an error; only a cut exactly on a frame boundary is
+        // indistinguishable from an orderly close
+        let on_boundary = cut == hs_a2b || frame_ends.contains(&cut);
+        if !on_boundary {
+            ensure!(sb.read_err.is_some() && !sb.eof, "C17/truncate-clean-eof", "stream cut at offset {cut} (inside a frame): reader saw eof={} error={:?} after {} of {} bytes; a truncated frame must be an error, not a clean end-of-stream", sb.eof, sb.read_err, sb.read.len(), plain.len());
+        }
     }
     fired("ciphertext_truncation");
     set_sample(|| format!("truncate-every-offset: writes {wa:?}, cuts {}..{}", hs_a2b, total));
